@@ -639,6 +639,42 @@ def _r04i(rep):
     rep.instance("R04i", CELLS, "Supercell._get_surrounding_frame", core.norm(core.src(frame_stmt), 90), ok_f, "the frame is not the extent of coordinate i of the corner points for i = 0, 1, 2", line=frame_stmt.lineno)
 
 
+def _r04n(rep):
+    """The automatically guessed primitive matrix: frame typing of guess_primitive_matrix with the conventions of its
+    two sources -- spglib's transformation_matrix takes coordinates in the input cell to coordinates in the
+    standardised cell (x_c = T x_u), get_primitive_matrix_by_centring gives the primitive axes as columns in the
+    standardised cell -- and the type of what it returns: the primitive axes as columns in the *input* cell."""
+    rep.rule("R04n", "guess_primitive_matrix: every product pairs a component index with a basis index of the same cell, and the matrix returned has the primitive axes as columns in the coordinates of the input cell, (L(u)+, L(p)-) = inv(T) M with T: input -> standardised coordinates and M: primitive axes in standardised coordinates; M^T inv(T) transposed back is inv(T)^T M, which agrees only for symmetric T", 2)
+    fn = core.find_def(CELLS, "guess_primitive_matrix")
+    seeds = {}
+    for nd in ast.walk(fn):
+        if isinstance(nd, ast.Attribute) and nd.attr == "transformation_matrix":
+            seeds[core.src(nd)] = (L("c", "+"), L("u", "-"))
+    if not seeds:
+        raise AnalysisError("R04n: guess_primitive_matrix no longer reads transformation_matrix from the symmetry dataset")
+    sigs = dict(SIGS)
+    sigs["get_primitive_matrix_by_centring"] = {"ret": (L("c", "+"), L("p", "-"))}
+    ty = frames.Typer(fn, seeds=seeds, params={}, call_sigs=sigs, where=f"{CELLS}::guess_primitive_matrix")
+    problems = ty.run()
+    for p in problems:
+        rep.instance("R04n", CELLS, "guess_primitive_matrix", core.norm(core.src(p.node), 90), False,
+                     f"{p.message}: the transformation to the standardised cell and the centring matrix are combined in the wrong orientation; for a cell whose transformation matrix is not symmetric (any monoclinic / triclinic input not already standardised) the guessed primitive matrix is wrong", line=getattr(p.node, "lineno", fn.lineno))
+    if not problems:
+        rep.instance("R04n", CELLS, "guess_primitive_matrix", f"{ty.n_typed} products typed consistently", True, "", line=fn.lineno, nontrivial=ty.n_typed > 0)
+    want = (L("u", "+"), L("p", "-"))
+    if not ty.returns:
+        raise AnalysisError("R04n: guess_primitive_matrix has no return statement that could be typed")
+    for t in ty.returns:
+        if t is None:
+            if problems:
+                continue
+            rep.unknown("R04n: the matrix returned by guess_primitive_matrix could not be typed")
+            continue
+        ok = len(t) == 2 and all(frames.same_axis(x, y) is not False for x, y in zip(t, want))
+        rep.instance("R04n", CELLS, "guess_primitive_matrix", f"returns {frames.show(t)}", ok,
+                     f"guess_primitive_matrix returns a matrix of type {frames.show(t)}; the primitive matrix has the type {frames.show(want)} (columns = primitive axes in the coordinates of the input cell): it is transposed / inverted with respect to what Primitive expects", line=fn.lineno)
+
+
 _run_main = run
 
 
@@ -653,6 +689,7 @@ def run(rep: core.Report):
     _r04k(rep)
     _r04l(rep)
     _r04m(rep)
+    _r04n(rep)
     from rules import shared_bcast
 
     shared_bcast.run(rep, "R04h", sorted(core.python_files("phonopy/structure")))
@@ -662,6 +699,9 @@ def selftest():
     V = []
     b = lambda name, file, old, new, rule, expect="", **kw: V.append(dict(name=name, kind="break", file=file, old=old, new=new, rule=rule, expect=expect, **kw))
     n = lambda name, file, old, new, **kw: V.append(dict(name=name, kind="neutral", file=file, old=old, new=new, **kw))
+    b("guessed primitive matrix assembled from the transposes", CELLS, "    return np.array(np.dot(np.linalg.inv(tmat), pmat), dtype=\"double\", order=\"C\")", "    return np.array(np.dot(pmat.T, np.linalg.inv(tmat)).T, dtype=\"double\", order=\"C\")", "R04n", "guess_primitive_matrix")
+    n("guessed primitive matrix through the transposed product, correctly", CELLS, "    return np.array(np.dot(np.linalg.inv(tmat), pmat), dtype=\"double\", order=\"C\")", "    return np.array(np.dot(pmat.T, np.linalg.inv(tmat).T).T, dtype=\"double\", order=\"C\")")
+    b("guessed primitive matrix returned transposed", CELLS, "    return np.array(np.dot(np.linalg.inv(tmat), pmat), dtype=\"double\", order=\"C\")", "    return np.array(np.dot(pmat.T, np.linalg.inv(tmat).T), dtype=\"double\", order=\"C\")", "R04n", "returns")
     b("p2p_map numbered by the sorted distinct values of s2p_map", CELLS, "        p2p_map = dict([(j, i) for i, j in enumerate(self._p2s_map)])", "        p2p_map = {j: i for i, j in enumerate(np.unique(s2p_map))}", "R04m", "_map_atomic_indices")
     b("copy() hands the atomic numbers over instead of the symbols", "phonopy/structure/atoms.py", "            magnetic_moments=self._magnetic_moments,\n            symbols=self._symbols,\n        )", "            magnetic_moments=self._magnetic_moments,\n            numbers=self.numbers,\n        )", "R04l", "copy")
     b("translations referenced to supercell atom 0's representative", CELLS, "        diff = positions - positions[self._p2s_map[0]]", "        diff = positions - positions[self._s2p_map[0]]", "R04k", "_get_atomic_permutations")
